@@ -387,6 +387,18 @@ def run(ctx):
                b"\x07\x0b\x01\x00\x01\x01\x00\x0c\x05\x00\x00" +
                b"\x05\x01\x11\x05\x00\x61\x00\x00\x00\x00\x00")
         add("synthetic:packsize-2^%d-with-packcrc" % exp, seal(b"hello", hdr), None, seq=["test"])
+    # one coder with N inputs and N outputs, N-1 bind pairs: whatever is looked up per stream must not cost a scan of
+    # all bind pairs (N^2 steps at open for a header of ~3N bytes)
+    import py7zr.archiveinfo as ai_
+
+    def num(v):
+        b = io.BytesIO()
+        ai_.write_uint64(b, v)
+        return b.getvalue()
+    for n_ in (2000, 40000):
+        folder = b"\x01\x11\x00" + num(n_) + num(n_) + b"\x00\x00" * (n_ - 1)
+        hdr = (b"\x01\x04\x06\x00\x01\x09\x00\x00" + b"\x07\x0b\x01\x00" + folder + b"\x0c" + b"\x00" * n_ + b"\x00" + b"\x00" + b"\x00")
+        add("synthetic:bindpairs-%d" % n_, seal(b"", hdr), None, seq=["getnames"])
     # degenerate inputs
     for blob in (b"", b"7z", b"7z\xbc\xaf\x27\x1c", b"7z\xbc\xaf\x27\x1c\x00\x04" + bytes(24), seal(b"", b""), seal(b"", b"\x01"), seal(b"", b"\x17"),
                  seal(b"", b"\x01\x00"), seal(b"", b"\x01\x05"), seal(b"", b"\x01\x04\x06")):
